@@ -3,3 +3,5 @@ pub mod build;
 pub mod run;
 pub mod val;
 pub mod hist;
+pub mod text;
+pub mod pratt;
